@@ -3,7 +3,7 @@ import spec
 from spec import bits_of, hex_of
 
 OBLIGATION_MODULES = ["PyModeS.Properties.C08"]
-TIE_MODULES = ['PyModeS.Tie.Common', 'PyModeS.Tie.Icao', 'PyModeS.Tie.Surv', 'PyModeS.Tie.Bds61', 'PyModeS.Tie.C0278Gen', 'PyModeS.Tie.C08Gen']
+TIE_MODULES = ['PyModeS.Tie.Common', 'PyModeS.Tie.Icao', 'PyModeS.Tie.Surv', 'PyModeS.Tie.Bds61', 'PyModeS.Tie.C0278Gen', 'PyModeS.Tie.C08Gen', 'PyModeS.Tie.MiscFields']
 MAIN_THEOREM = "PyModeS.C08.squawk_spec / idcode_frame / surv_fields / interrogator_spec"
 EXHAUSTIVE = True
 RULE = ("all 8192 identity patterns x {squawk, DF5, DF21, TC28} carriers; FS x DR x IIS x IDS product and CA 0..7 with random "
